@@ -49,6 +49,7 @@ func runC09(c *eng.Ctx) {
 	p := c.P
 	schemaReadBeforeAFlushIsNotAdopted(c)
 	cachedBucketIsNotRecycled(c)
+	cachedBucketNotReleasedByReader(c)
 	kvStoreFlushSnapshotThenPurge(c)
 
 	// ---- 1. GOC: indexKVStore.createValue -------------------------------------------------------------
@@ -1027,6 +1028,55 @@ func indexFlushSeriesLast(c *eng.Ctx) {
 	_ = p
 	f := c.Fn(midT + ".Flush")
 	ser := invokeOn(".series", "Flush")
+	// the four flushes are steps of one sequence: none of them runs in a goroutine of its own
+	for _, b := range f.Blocks {
+		for _, in := range b.Instrs {
+			g, isGo := in.(*ssa.Go)
+			if !isGo {
+				continue
+			}
+			var body *ssa.Function
+			switch x := g.Common().Value.(type) {
+			case *ssa.MakeClosure:
+				body, _ = x.Fn.(*ssa.Function)
+			case *ssa.Function:
+				body = x
+			}
+			if body == nil {
+				body = g.Common().StaticCallee()
+			}
+			if body == nil {
+				continue
+			}
+			conc := len(p.DeepSites(body, eng.Any(ser, invokeOn(".metricInverted", "flush"), invokeOn(".forward", "flush"), invokeOn(".inverted", "flush")), 2, false)) > 0
+			c.Check(!conc, "flushes-are-sequential", in, f,
+				"the series dictionary (tags hash -> series id) becomes durable only after the postings of the same flush are: GenSeriesID builds index entries only for a series the dictionary does not know, so a dictionary that survives a crash without its postings leaves replayed rows un-indexed for good. Flushing the families concurrently establishes no order",
+				"an index family is flushed in a goroutine")
+		}
+	}
+	// ... nor is one of them taken as a method value and called through a table (the order is then whatever the caller of
+	// the table makes it - concurrently, in the change this clause was written for)
+	for _, g := range append([]*ssa.Function{f}, closuresT(f)...) {
+		for _, b := range g.Blocks {
+			for _, in := range b.Instrs {
+				mc, ok := in.(*ssa.MakeClosure)
+				if !ok {
+					continue
+				}
+				bf, _ := mc.Fn.(*ssa.Function)
+				if bf == nil || !strings.HasSuffix(bf.Name(), "$bound") || !strings.EqualFold(strings.TrimSuffix(baseName(bf.Name()), "$bound"), "flush") {
+					continue
+				}
+				if !strings.HasPrefix(p.FuncKey(bf), "index.") {
+					continue
+				}
+				c.Check(false, "flushes-are-direct-calls:"+p.FuncKey(bf), in, f,
+					"the four index flushes are written as a sequence of direct calls with the series dictionary last; a flush taken as a method value is run by whoever calls the table - no order is established",
+					"method value "+p.FuncKey(bf))
+				return
+			}
+		}
+	}
 	for _, d := range []string{".metricInverted", ".forward", ".inverted"} {
 		okOrderInFn(c, f, invokeOn(d, "flush"), ser, "index"+d+".flush", "index.series.Flush")
 	}
